@@ -151,6 +151,26 @@ def cond_prefix(key, c) -> str:
     return f"C {key} {f_prefix(c[0])} {f_prefix(c[1])}"
 
 
+def f_from_pysmt(fn, names):
+    """pysmt formula (as the parser builds it) -> formula tuple over atom indices"""
+    if fn.is_true():
+        return ("T",)
+    if fn.is_false():
+        return ("F",)
+    if fn.is_symbol():
+        return ("a", names.index(fn.symbol_name()))
+    if fn.is_not():
+        return ("!", f_from_pysmt(fn.arg(0), names))
+    if fn.is_and() or fn.is_or():
+        op = "&" if fn.is_and() else "|"
+        args = [f_from_pysmt(a, names) for a in fn.args()]
+        f = args[0]
+        for g in args[1:]:
+            f = (op, f, g)
+        return f
+    raise ValueError("unsupported node " + str(fn.node_type()))
+
+
 def cond_text(c, names) -> str:
     return "(" + f_text(c[0], names) + "|" + f_text(c[1], names) + ")"
 
